@@ -129,14 +129,14 @@ func (s *grpcServer) GetActionResult(ctx context.Context,
 		&result.StdoutRaw, &result.StdoutDigest, &inlinedSoFar)
 	if err != nil {
 		s.accessLogger.Printf("%s %s %s", logPrefix, req.ActionDigest.Hash, err)
-		return nil, status.Error(codes.Unknown, err.Error())
+		return nil, status.Error(gRPCErrCode(err, codes.Unknown), err.Error())
 	}
 
 	err = s.maybeInline(ctx, req.InlineStderr,
 		&result.StderrRaw, &result.StderrDigest, &inlinedSoFar)
 	if err != nil {
 		s.accessLogger.Printf("%s %s %s", logPrefix, req.ActionDigest.Hash, err)
-		return nil, status.Error(codes.Unknown, err.Error())
+		return nil, status.Error(gRPCErrCode(err, codes.Unknown), err.Error())
 	}
 
 	inlinableFiles := make(map[string]struct{}, len(req.InlineOutputFiles))
@@ -148,7 +148,7 @@ func (s *grpcServer) GetActionResult(ctx context.Context,
 		err = s.maybeInline(ctx, ok, &of.Contents, &of.Digest, &inlinedSoFar)
 		if err != nil {
 			s.accessLogger.Printf("%s %s %s", logPrefix, req.ActionDigest.Hash, err)
-			return nil, status.Error(codes.Unknown, err.Error())
+			return nil, status.Error(gRPCErrCode(err, codes.Unknown), err.Error())
 		}
 	}
 
